@@ -22,6 +22,7 @@ KINDS = {
     'C12': ['MF', 'MI', 'MU'],
     'C20': ['SD', 'SM', 'SS', 'SI', 'SX'],
     'C15': [],
+    'C03': ['MF'],
     'C16': ['MD', 'MF', 'MR', 'MN', 'ED', 'EV', 'EN', 'ER', 'SD', 'SM', 'SN', 'MI', 'MU'],
 }
 
@@ -73,7 +74,7 @@ def mask_line(pid, l):
     """what each property compares of a line"""
     t = l.split(' ')
     if t[0] == 'MF':
-        if pid == 'C13':
+        if pid in ('C13', 'C03'):
             t[9] = '*'            # the default column belongs to C12
         elif pid == 'C12':
             return 'MF %s %s %s' % (t[1], t[3], t[9])      # index, id, default
@@ -508,7 +509,7 @@ def oracle_C14(r):
     return out
 
 
-ORACLES = {'C12': oracle_C12, 'C13': oracle_C13, 'C14': oracle_C14, 'C15': oracle_C15, 'C20': oracle_C20}
+ORACLES = {'C03': oracle_C13, 'C12': oracle_C12, 'C13': oracle_C13, 'C14': oracle_C14, 'C15': oracle_C15, 'C20': oracle_C20}
 
 
 # ------------------------------------------------------------------ known findings (committed file; never written here)
